@@ -1,16 +1,36 @@
-import OjgVerif.Writer.LemmasStr
+import OjgVerif.Writer.LemmasParse
 /-! # C04 — JSON writers emit valid JSON that denotes the data written
 
-Re-checked on every run against the regenerated tables (`Gen.Root.jMap`, `Gen.Root.hex`,
-`Gen.Oj.spaces`, `Gen.Oj.tabs`). The judge is `OjgVerif.Json.Spec` (RFC 8259). -/
+Re-checked on every run against the regenerated constants (`Gen.Root.jMap`, `Gen.Root.hex`,
+`Gen.Oj.spaces`, `Gen.Oj.tabs`). The judge is `OjgVerif.Json.Spec` (RFC 8259); the model is
+`OjgVerif.Writer.OjModel` (tied to the Go code by the correspondence run, byte for byte and chunk
+for chunk); what the text has to denote is `OjgVerif.Writer.norm` (`Writer/JsonSpec.lean`).
+
+Proved here for the `oj` writers (tight and indented, Sort on and off, OmitNil/OmitEmpty,
+HTML-safe on and off, with and without an `io.Writer`). `pretty` is modelled and tied by
+correspondence only (`Writer/Pretty.lean`); it violates the property in two known ways. -/
 namespace OjgVerif.C04
 open OjgVerif OjgVerif.Json OjgVerif.Writer
+
+/-! ## the escaping table -/
 
 /-- every cell of the regenerated `jMap` is one the string reader undoes: a byte marked "copy" is a
 printable ASCII byte other than `"` and `\`, `\u00XX` is only used below 0x80, the decoder is only
 asked about bytes ≥ 0x80, and a two-character escape `\c` is one RFC 8259 reads back as the byte -/
 theorem jMap_safe : TableSafe Gen.Root.jMap :=
   tableSafe_of_check _ (by decide +kernel) (by decide +kernel)
+
+/-- the indentation constants are a newline followed by blanks / tabs: white space only -/
+theorem spaces_ws : (Gen.Oj.spaces.toList.all Spec.isWs) = true := by decide +kernel
+theorem tabs_ws : (Gen.Oj.tabs.toList.all Spec.isWs) = true := by decide +kernel
+
+theorem layout_wf (o : Opts) : (layoutOf o).WF := by
+  unfold layoutOf
+  split
+  · exact indentL_wf o spaces_ws tabs_ws
+  · exact tightL_wf
+
+/-! ## strings -/
 
 /-- the escaped text of ANY byte string, between quotes, is an RFC 8259 string that reads back as
 the string with every byte that is not part of a well-formed UTF-8 sequence replaced by U+FFFD;
@@ -24,9 +44,87 @@ theorem C04_string_body (s rest : Bytes) (html : Bool) :
 JSON text whose value is the sanitised string -/
 theorem C04_string (s : Bytes) (html : Bool) :
     Spec.parseDoc (appendJSONString [] s html) = .one (.str (sanitize s)) := by
-  have h := esc_parse _ jMap_safe html true s [] ((escLoop Gen.Root.jMap html 0 true s ++ [34]).length)
-    (by simp)
-  simp only [appendJSONString, jsonString, List.nil_append, Spec.parseDoc, Spec.stripBOM]
-  sorry
+  have h := pValue_str jMap_safe (jsonString s html).length s [] html
+  simp only [List.append_nil] at h
+  have hj : jsonString s html = 34 :: (escLoop Gen.Root.jMap html 0 true s ++ [34]) := rfl
+  simp only [appendJSONString, List.nil_append]
+  rw [hj] at h ⊢
+  exact parseDoc_of_pValue 34 _ _ (by decide) (by decide) h
+
+/-! ## integers -/
+
+/-- integer round trip: the literal printed for `i` is an RFC 8259 number whose value is `i` -/
+theorem C04_int (i : Int) : isNumLit (fmtInt i) ∧ intVal (fmtInt i) = i :=
+  ⟨isNumLit_fmtInt i, intVal_fmtInt i⟩
+
+/-! ## streaming -/
+
+/-- for every tree, every option combination, every iteration order and EVERY WriteLimit, the
+chunks handed to the `io.Writer` are, joined, byte for byte the text of the in-memory call: the
+comma overwrite always hits a byte appended after the last flush -/
+theorem C04_stream (o : Opts) (ord : Kvs → Kvs) (limit : Nat) (v : JV) :
+    (ojWriteTo o ord limit v).flatten = ojWrite o ord v := by
+  rw [ojWriteTo_flatten, ojWrite_eq_text]
+
+/-! ## Sort -/
+
+/-- with Sort the text is the same whatever order the run-time iterates the maps in -/
+theorem C04_sort (o : Opts) (h : o.sort = true) (ord₁ ord₂ : Kvs → Kvs) (h₁ : IsOrder ord₁) (h₂ : IsOrder ord₂)
+    (v : JV) (hv : distinctKeys v) : ojWrite o ord₁ v = ojWrite o ord₂ v := by
+  rw [ojWrite_eq_text, ojWrite_eq_text]
+  exact text_sort_indep o h ord₁ ord₂ h₁ h₂ _ _ v 0 hv
+
+/-- … and the members of every object are visited (hence written, `C04_oj`) in strictly ascending
+byte-wise order of the input keys, each exactly once -/
+theorem C04_sort_ascending (ord : Kvs → Kvs) (h : IsOrder ord) (kvs : Kvs)
+    (hnd : (kvs.map fun kv => kv.1).Nodup) :
+    Ascending (order true ord kvs) ∧ (order true ord kvs).Perm kvs := by
+  refine ⟨?_, order_perm true ord h kvs⟩
+  simp only [order, ↓reduceIte]
+  exact sortKvs_ascending _ (((h kvs).map _).nodup_iff.mpr hnd)
+
+/-! ## the whole tree -/
+
+/-- for every tree of nil, bool, int, float (given as a number literal), string, array and object
+values whose objects keep distinct keys after sanitising, every option combination and every
+iteration order: the text of `oj.JSON` / `oj.Marshal` is ONE valid JSON document, and its RFC 8259
+reading is the input tree with strings and keys sanitised, numbers as their literals, members in
+the order written, minus exactly the members OmitNil / OmitEmpty name -/
+theorem C04_oj (o : Opts) (ord : Kvs → Kvs) (hord : IsOrder ord) (v : JV) (hv : okW v) :
+    Spec.parseDoc (ojWrite o ord v) = .one (norm o ord v) := by
+  rw [ojWrite_eq_text]
+  obtain ⟨b, t, hb, hsb⟩ := text_head o ord (layoutOf o) (depth v) v 0 hv
+  have hlen := depth_le_text o ord hord (layoutOf o) (depth v + 1) v 0 (Nat.lt_succ_self _)
+  have hp := parse_text jMap_safe o ord hord (layoutOf o) (layout_wf o) (depth v + 1) v 0
+    ((text o ord (layoutOf o) (depth v + 1) v 0).length + 1) [] hv (Nat.lt_succ_self _) (by omega) rfl
+  simp only [List.append_nil] at hp
+  rw [hb] at hp ⊢
+  exact parseDoc_of_pValue b t _ (startByte_ne_bom b hsb) (startByte_facts b hsb).1 hp
+
+/-- the same for the text streamed through `oj.Write` with any WriteLimit -/
+theorem C04_oj_stream (o : Opts) (ord : Kvs → Kvs) (hord : IsOrder ord) (limit : Nat) (v : JV) (hv : okW v) :
+    Spec.parseDoc (ojWriteTo o ord limit v).flatten = .one (norm o ord v) := by
+  rw [C04_stream]; exact C04_oj o ord hord v hv
+
+/-! ## the hypotheses are not vacuous -/
+
+/-- iterating a map front to back or back to front are legitimate orders -/
+example : IsOrder id := fun _ => List.Perm.refl _
+example : IsOrder List.reverse := fun l => List.reverse_perm l
+
+/-- `{"b":[1.5e+21,-0,""],"a\xff":null,"a":{}}` is a tree the theorems speak about -/
+example : okW (.obj [([98], .arr [.flt [49, 46, 53, 101, 43, 50, 49], .flt [45, 48], .str []]),
+    ([97, 255], .null), ([97], .obj [])]) := by
+  simp only [okW, okKvs, okList, and_true]
+  exact ⟨by decide, by decide, by decide⟩
+
+example : distinctKeys (.obj [([98], .int 1), ([97, 255], .null), ([97, 254], .obj [])]) := by
+  simp only [distinctKeys, distinctKeysKvs, and_true]
+  decide
+
+/-- two keys that collide after sanitising are outside `okW` (the text would have a duplicate member) -/
+example : ¬ okW (.obj [([255], .int 1), ([254], .int 2)]) := by
+  simp only [okW, okKvs, and_true]
+  decide
 
 end OjgVerif.C04
